@@ -444,7 +444,7 @@ pub fn unicode_case(cx: &mut Ctx, text: &[u8]) {
                 if an.char_count != want.len() || an.byte_count != s.len() || an.ascii_count != want.iter().filter(|c| c.is_ascii()).count() { bad.push("analyze counts".into()); }
             }
         }
-        for &b in text.iter().take(4) {
+        for b in 0..=255u8 {
             let want = if b < 0x80 { 1 } else if b < 0xC0 { 0 } else if b < 0xE0 { 2 } else if b < 0xF0 { 3 } else if b < 0xF8 { 4 } else { 0 };
             if utf8_byte_count(b) != want { bad.push(format!("utf8_byte_count({})", b)); }
         }
